@@ -499,6 +499,102 @@ def embedded_exit_code(binary, base, rep):
     return n
 
 
+def load_order_factor(binary, base, rep, tier):
+    """F) rule LOAD ORDER: every sequence of 3 (thorough: 3..4) rules over {typescript, python} x
+    {no glob, `files: [src/**]`} — so that rules of one language are interrupted by rules of
+    another in every possible way — written (a) as one multi-document rule file in that order and
+    (b) as one file per rule whose names sort in that order. Every rule is `foo($A)`, every source
+    file holds `foo(1)`: each rule must be applied to the file of its own language and to no other,
+    and the scan exits non-zero iff an error rule was applied."""
+    kinds = [("typescript", None), ("python", None), ("typescript", ["src/**"]), ("python", ["src/**"])]
+    lens = (3, 4) if tier == "thorough" else (3,)
+    seqs = [q for n in lens for q in itertools.product(range(len(kinds)), repeat=n)]
+    jobs = [(q, form) for q in seqs for form in ("multi-document", "files")]
+    file_of = {"typescript": "src/a.ts", "python": "src/b.py"}
+
+    def one(job):
+        q, form = job
+        root = os.path.join(base, "ord_%s_%s" % ("".join(map(str, q)), form[0]))
+        rules = []
+        for i, k in enumerate(q):
+            lang, files = kinds[k]
+            r = {"id": "o%d" % i, "language": lang, "severity": "error" if i == len(q) - 1 else "warning", "rule": {"pattern": "foo($A)"}}
+            if files:
+                r["files"] = files
+            rules.append(r)
+        tree = {"sgconfig.yml": json.dumps({"ruleDirs": ["rules"]}) + "\n", "src/a.ts": "foo(1)\n", "src/b.py": "foo(1)\n", "src/c.js": "foo(1)\n"}
+        if form == "files":
+            for i, r in enumerate(rules):
+                tree["rules/%c.yml" % (97 + i)] = json.dumps(r) + "\n"
+        else:
+            tree["rules/all.yml"] = "\n---\n".join(json.dumps(r) for r in rules) + "\n"
+        vlib.write_tree(root, tree)
+        code, out, err = vlib.run_cli(binary, ["scan", "--json=stream"], root, timeout=60)
+        return job, rules, code, out, err
+    n = 0
+    for (q, form), rules, code, out, err in vlib.pmap(one, jobs, workers=16):
+        n += 1
+        case = {"factor": "F:rule load order", "form": form, "rules": [{"id": r["id"], "language": r["language"], "files": r.get("files"), "severity": r["severity"]} for r in rules]}
+        crash = vlib.is_crash(code, err)
+        if crash:
+            rep.violation("crash:%s:scan" % crash, dict(case, stderr=err.decode("utf-8", "replace")[-300:]))
+            continue
+        try:
+            got = {(j["ruleId"], j["file"].lstrip("./")) for j in (json.loads(l) for l in out.decode().splitlines() if l.strip())}
+        except (ValueError, KeyError) as e:
+            rep.violation("output:unparseable", dict(case, error=str(e)))
+            continue
+        want = {(r["id"], file_of[r["language"]]) for r in rules}
+        if got != want:
+            kind = "missing" if want - got else "extra"
+            globbed = "rule-without-globs" if any(r.get("files") is None for r in rules if (r["id"], file_of[r["language"]]) in (want ^ got)) else "rule-with-globs"
+            rep.violation("select:%s:load-order:%s" % (kind, globbed), dict(case, missing=sorted(map(list, want - got)), extra=sorted(map(list, got - want))))
+        elif code == 0:
+            rep.violation("exit-code:zero-with-error-finding:load-order", dict(case, exit=code))
+    return n
+
+
+def split_extension_factor(binary, base, rep):
+    """G) languageGlobs that split ONE extension between two languages by file name
+    (`tsx: ['*.page.ts']`, the other *.ts stay TypeScript): every non-empty set of <= 4 files over
+    {a.ts, b.page.ts, c.ts, 0.page.ts, z.page.ts} (so that either kind comes first in any visiting
+    order) x {--threads 1, default}. A TypeScript rule and a Tsx rule, both `foo($A)`: each file gets
+    exactly the rule of its language, whatever was scanned before it."""
+    names = ["a.ts", "b.page.ts", "c.ts", "0.page.ts", "z.page.ts"]
+    sets = [c for n in range(1, 5) for c in itertools.combinations(names, n)]
+    jobs = [(c, th) for c in sets for th in ("1", "default")]
+
+    def one(job):
+        files, th = job
+        root = os.path.join(base, "split_%s_%s" % ("".join(f[0] for f in files), th))
+        tree = {"sgconfig.yml": json.dumps({"ruleDirs": ["rules"], "languageGlobs": {"tsx": ["*.page.ts"]}}) + "\n",
+                "rules/t.yml": json.dumps({"id": "g-ts", "language": "typescript", "severity": "warning", "rule": {"pattern": "foo($A)"}}) + "\n",
+                "rules/x.yml": json.dumps({"id": "g-tsx", "language": "tsx", "severity": "warning", "rule": {"pattern": "foo($A)"}}) + "\n"}
+        for f in files:
+            tree["src/" + f] = "foo(1)\n"
+        vlib.write_tree(root, tree)
+        argv = ["scan", "--json=stream"] + (["--threads", "1"] if th == "1" else [])
+        code, out, err = vlib.run_cli(binary, argv, root, timeout=60)
+        return job, code, out, err
+    n = 0
+    for (files, th), code, out, err in vlib.pmap(one, jobs, workers=16):
+        n += 1
+        case = {"factor": "G:one extension split between two languages by languageGlobs", "files": list(files), "threads": th}
+        crash = vlib.is_crash(code, err)
+        if crash:
+            rep.violation("crash:%s:scan" % crash, dict(case, stderr=err.decode("utf-8", "replace")[-300:]))
+            continue
+        try:
+            got = {(j["ruleId"], j["file"].lstrip("./")) for j in (json.loads(l) for l in out.decode().splitlines() if l.strip())}
+        except (ValueError, KeyError) as e:
+            rep.violation("output:unparseable", dict(case, error=str(e)))
+            continue
+        want = {("g-tsx" if f.endswith(".page.ts") else "g-ts", "src/" + f) for f in files}
+        if got != want:
+            rep.violation("select:language-of-a-file-depends-on-the-files-scanned-before-it:threads=%s" % th, dict(case, missing=sorted(map(list, want - got)), extra=sorted(map(list, got - want))))
+    return n
+
+
 def main(argv):
     args = vlib.parse_args(argv)
     rep = vlib.Reporter(PROP, args)
@@ -522,6 +618,8 @@ def main(argv):
 
     results = vlib.pmap(work, cases, workers=16)
     n_embedded = embedded_exit_code(binary, base, rep)
+    n_order = load_order_factor(binary, base, rep, args["tier"])
+    n_split = split_extension_factor(binary, base, rep)
 
     per_factor, outcomes, nontrivial, label_mismatch = {}, {}, set(), 0
     decisions = applied = 0
@@ -567,7 +665,7 @@ def main(argv):
         "file_rule_decisions_judged": decisions,
         "file_rule_pairs_expected_applied": applied,
         "deciding_clause_counts": reasons,
-        "runs_per_factor": dict(per_factor, **{"E:exit code with several documents per file": n_embedded}),
+        "runs_per_factor": dict(per_factor, **{"E:exit code with several documents per file": n_embedded, "F:rule load order": n_order, "G:one extension split between two languages": n_split}),
         "outcomes_(any_finding,exit_code)": outcomes,
         "severity_label_disagreements_not_judged": label_mismatch,
         "exhaustive": True,
@@ -590,7 +688,7 @@ def main(argv):
             "B1) all 5^3 own severities x {full, test/ only}; B2) complete override alphabet (none; 1 id->1 flag; 2 ids->any 2 flags; bare flag; "
             "bare + per-id on a different flag; 6 --filter regexes alone / with --error / with --off=r1) x own-severity assignments "
             "(quick: 2 fixed; thorough: the 25 assignments (s1, s2, SEVS[(i1+i2)%5]), i.e. every pair of rules sees all 25 severity pairs); C) 9 languageGlobs settings (two of them re-assign an extension owned by a built-in language: the glob wins) x 36 rule sets x layouts (quick: full; thorough: full, ext=txt, ext=none); "
-            "D) {no path, `.`} x every layout x {none, --error, --off=r1}; E) exit-code clause on an .html file (host document + <script>): all 25 own-severity pairs of an html rule and a js rule x 4 contents x with/without another file. Every source file holds `foo(1)` and every rule is `foo($A)`, so 'rule applied "
+            "D) {no path, `.`} x every layout x {none, --error, --off=r1}; E) exit-code clause on an .html file (host document + <script>): all 25 own-severity pairs of an html rule and a js rule x 4 contents x with/without another file; F) every sequence of 3 (thorough 3..4) rules over {typescript, python} x {no glob, files: [src/**]} as one multi-document rule file and as one file per rule in that name order (rules of one language interrupted by another language in every way); G) languageGlobs `tsx: [*.page.ts]` splitting the .ts extension: every set of <= 4 files over 2 plain and 3 .page.ts names x {--threads 1, default}. Every source file holds `foo(1)` and every rule is `foo($A)`, so 'rule applied "
             "to file' <=> >= 1 finding (file, ruleId). Non-trivial case = the reference expects >= 1 applied (file, rule) pair AND >= 1 pair excluded by a "
             "rule-side clause (language mismatch, files, ignores, off, filter). Out of the alphabet (statement silent): one id on two different flags, two "
             "bare flags, --filter matching no rule, regexes whose search/full-match differ, globs where `*` crossing `/` would matter, a file claimed by two languageGlobs entries."),
